@@ -121,9 +121,9 @@ def structures(ident, tier, seed=0):
                     dict(nsat=2, nsig=2, cellmask=seed + 5), dict(nsat=3, nsig=2, cellmask=seed + 7),
                     dict(nsat=4, nsig=4, cellmask=seed + 9)]
     elif k == 'harm':
-        hs = [(0, 0, 0), (0, 1, 0), (0, 1, 1), (1, 1, 1), (0, 2, 1)] if tier == 'quick' else \
+        hs = [(0, 0, 0), (0, 1, 0), (0, 1, 1), (1, 1, 1), (0, 2, 1), (0, 2, 5), (0, 0, 3), (1, 1, 4)] if tier == 'quick' else \
             [(l, n, m) for l in (0, 1, 2) for n in (0, 1, 2, 3) for m in range(0, n + 1)] + \
-            [(0, 15, 15), (0, 15, 0), (0, 12, 7), (3, 1, 1)]
+            [(0, 15, 15), (0, 15, 0), (0, 12, 7), (3, 1, 1), (0, 2, 5), (0, 0, 3), (1, 1, 4), (0, 3, 15)]
         out += [dict(harm=h) for h in hs]
     elif k == 'flags':
         out += [dict(flags=f) for f in range(16)]
